@@ -226,11 +226,21 @@ class Function:
         for p in self.params:
             if isinstance(p.get("t"), int):
                 p["t"] = types[p["t"]]
-        self.body = raw.get("body")
-        self.inits = raw.get("inits", [])
+        self._body = raw.get("body")
+        self._inits = raw.get("inits", [])
         self._nodes = None
         self._parent = None
         self._cfg = None
+
+    @property
+    def body(self):
+        self._index()
+        return self._body
+
+    @property
+    def inits(self):
+        self._index()
+        return self._inits
 
     @property
     def relfile(self):
@@ -259,10 +269,11 @@ class Function:
                 for ch in reversed(x.get("c", ())):
                     stack.append((ch, x))
 
-        for i in self.inits:
+        self._nodes, self._parent = nodes, parent
+        for i in self._inits:
             visit(i)
-        if self.body:
-            visit(self.body)
+        if self._body:
+            visit(self._body)
         cfg = self.raw.get("cfg")
         if cfg:
             for b in cfg["blocks"]:
@@ -300,9 +311,9 @@ class Function:
     def nodes(self):
         """pre-order over initialisers and body"""
         self._index()
-        for i in self.inits:
+        for i in self._inits:
             yield from walk(i)
-        yield from walk(self.body)
+        yield from walk(self._body)
 
     def calls(self, pred=None):
         for n in self.nodes():
